@@ -1036,13 +1036,9 @@ func (s *v4Server) handleDecline(req, resp *dhcpv4.DHCPv4) (err error) {
 		return nil
 	}
 
-	newLease.Hostname = oldLease.Hostname
-	newLease.Expiry = time.Now().Add(s.conf.leaseTime)
-
-	err = s.addLease(newLease)
-	if err != nil {
-		return fmt.Errorf("adding new lease for %s: %w", mac, err)
-	}
+	// The new lease has already been added by allocateLease, so only update
+	// its properties.
+	s.commitLease(newLease, oldLease.Hostname)
 
 	log.Info("dhcpv4: changed IP from %s to %s for %s", reqIP, newLease.IP, mac)
 
